@@ -266,7 +266,12 @@ def scenario(ctx, i, rng):
             payload = render_config(rng, assigns)
             if method == "parse_path":
                 pth = os.path.join(wd, "given.yaml")
-                with open(pth, "w") as f:
+                if rng.random() < 0.35:
+                    # the config lives in another directory than the process (and the default config files)
+                    os.makedirs(os.path.join(wd, "sub"), exist_ok=True)
+                    pth = os.path.join("sub", "given.yaml")
+                    kinds_present.append("parse_path_in_other_directory")
+                with open(os.path.join(wd, pth), "w") as f:
                     f.write(payload)
                 payload = pth
         sources.append((method, eff))
@@ -326,15 +331,16 @@ def scenario(ctx, i, rng):
     for attempt, oo, exp_, srcs in (("first", o, expected, sources), ("repeated", o_again, expected if again == "same" else fold(defaults, [s[1] for s in standing]), sources if again == "same" else standing)):
         if oo is None:
             continue
-        if _compare(ctx, oo, exp_, srcs, dict(w, second_call=again) if attempt == "repeated" else w, method, attempt):
+        tag = "parse_path-config-in-other-directory/" if attempt == "first" and "parse_path_in_other_directory" in kinds_present and default_files else ""
+        if _compare(ctx, oo, exp_, srcs, dict(w, second_call=again) if attempt == "repeated" else w, method, attempt, tag):
             return
     if i < 3:
         ctx.sample(dict(method=method, env_mode=env_mode, default_config_files=default_files, env=env, argv=argv, final={k: expected[k] for k in ("a", "l", "d")}))
 
 
-def _compare(ctx, o, expected, sources, w, method, attempt):
+def _compare(ctx, o, expected, sources, w, method, attempt, tag=""):
     """-> True when a violation was reported"""
-    rep = "" if attempt == "first" else "repeated-on-same-parser/"
+    rep = tag + ("" if attempt == "first" else "repeated-on-same-parser/")
     if not o.accepted:
         ctx.violation("fold", f"{rep}valid-sources-rejected/{method}/{o.exc_type or o.code}", dict(w, outcome=o.brief()))
         return True
